@@ -179,6 +179,8 @@ class FunctionVC:
                     return
                 b2 = dict(bindings)
                 b2['op'] = args[1] if len(args) > 1 else None
+                for kw_name, kw_val in kwargs.items():
+                    b2['call_' + kw_name] = kw_val
                 for nm in names:
                     f = dict(ccls.clauses)[nm]
                     kind, prop, note = f._clause
@@ -289,5 +291,8 @@ class FunctionVC:
         for qual, sym in getattr(self.I, 'cut_log', []):
             oracle.setdefault(qual, []).append(decode(sym, self.heap0, model))
         out['pure_callee_results'] = oracle
+        # callees replaced by an ABSTRACT contract whose chosen values cannot be imposed natively (lookup strengths):
+        # a native replay that does not exhibit the failure then proves nothing either way
+        out['abstract_callees'] = sorted({k[0] for k in getattr(self.I, 'strength_memo', {})})
         out['havoc_callees'] = sorted(q for q, c in (self.I.cuts or {}).items() if getattr(c, '_havoc', False))
         return out
